@@ -280,6 +280,36 @@ def utf8_of_runes(runes):
 
 
 # ---------------------------------------------------------------- cases
+def bq_sx(b):
+    inner = ' '.join('(%s)' % kstep_sx(x) for x in b[1])
+    if b[0] == 'c':
+        return '(c (%s) %d %s)' % (inner, b[2], ' '.join(str(x) for x in b[3]))
+    if b[0] == 'cr':
+        # an ordering against a `$` path: ('cr', inner, op, root steps); ('re', root steps) / ('rn', root steps): `$ steps` / `!$ steps`
+        return '(cr (%s) %d (%s))' % (inner, b[2], ' '.join('(%s)' % kstep_sx(x) for x in b[3]))
+    if b[0] == 'x':
+        # a regular-expression test @inner=~/body/: ('x', inner, body code points)
+        return '(x (%s) %s)' % (inner, ' '.join(str(x) for x in b[2]))
+    if b[0] == 'pq':
+        # == / != between the member's value and what a `$` path reaches: ('pq', inner, ne, root steps)
+        return '(pq (%s) %d (%s))' % (inner, 1 if b[2] else 0, ' '.join('(%s)' % kstep_sx(x) for x in b[3]))
+    if b[0] == 'l':
+        # == / != against a string ('s', quote, body cps), boolean ('b', 0/1, spelling) or null ('n', spelling) literal
+        lv = b[3]
+        lit = ('s %d %s' % (lv[1], ' '.join(str(x) for x in lv[2]))) if lv[0] == 's' else ('b %d %d' % (lv[1], lv[2])) if lv[0] == 'b' else 'n %d' % lv[1]
+        return '(l (%s) %d (%s))' % (inner, 1 if b[2] else 0, lit)
+    return '(%s %s)' % (b[0], inner)
+
+
+def qt_sx(t):
+    """a query with parenthesised sub-queries: ('b', basic query) | ('p', t) | ('a', l, r) | ('o', l, r)"""
+    if t[0] == 'b':
+        return '(b %s)' % bq_sx(t[1])
+    if t[0] == 'p':
+        return '(p %s)' % qt_sx(t[1])
+    return '(%s %s %s)' % (t[0], qt_sx(t[1]), qt_sx(t[2]))
+
+
 def kstep_sx(st):
     """one step of a Coq chain_path: (code, cps) | (4, code, cps...) for `..step` | (5, a, b, c-or-None) for a slice"""
     if st[0] == 4:
@@ -292,32 +322,16 @@ def kstep_sx(st):
         return '%d ' % st[0] + ' '.join('(%s)' % kstep_sx(x) for x in st[1])
     if st[0] == 10:
         # a filter over a query in disjunctive form: (10, [[basic query, ...], ...]); a basic query is ('e', inner) | ('n', inner) | ('c', inner, op, lit)
-        def bq(b):
-            inner = ' '.join('(%s)' % kstep_sx(x) for x in b[1])
-            if b[0] == 'c':
-                return '(c (%s) %d %s)' % (inner, b[2], ' '.join(str(x) for x in b[3]))
-            if b[0] == 'cr':
-                # an ordering against a `$` path: ('cr', inner, op, root steps); ('re', root steps) / ('rn', root steps): `$ steps` / `!$ steps`
-                return '(cr (%s) %d (%s))' % (inner, b[2], ' '.join('(%s)' % kstep_sx(x) for x in b[3]))
-            if b[0] == 'x':
-                # a regular-expression test @inner=~/body/: ('x', inner, body code points)
-                return '(x (%s) %s)' % (inner, ' '.join(str(x) for x in b[2]))
-            if b[0] == 'pq':
-                # == / != between the member's value and what a `$` path reaches: ('pq', inner, ne, root steps)
-                return '(pq (%s) %d (%s))' % (inner, 1 if b[2] else 0, ' '.join('(%s)' % kstep_sx(x) for x in b[3]))
-            if b[0] == 'l':
-                # == / != against a string ('s', quote, body cps), boolean ('b', 0/1, spelling) or null ('n', spelling) literal
-                lv = b[3]
-                lit = ('s %d %s' % (lv[1], ' '.join(str(x) for x in lv[2]))) if lv[0] == 's' else ('b %d %d' % (lv[1], lv[2])) if lv[0] == 'b' else 'n %d' % lv[1]
-                return '(l (%s) %d (%s))' % (inner, 1 if b[2] else 0, lit)
-            return '(%s %s)' % (b[0], inner)
-        return '10 ' + ' '.join('(%s)' % ' '.join(bq(b) for b in conj) for conj in st[1])
+        return '10 ' + ' '.join('(%s)' % ' '.join(bq_sx(b) for b in conj) for conj in st[1])
     if st[0] == 12:
         # a comparison filter with blanks: (12, [inner steps], blanks after `?(`, before the operator, operator, after it, before `)`, literal code points)
         return '12 (%s) %d %d %d %d %d %s' % (' '.join('(%s)' % kstep_sx(x) for x in st[1]), st[2], st[3], st[4], st[5], st[6], ' '.join(str(x) for x in st[7]))
     if st[0] == 13:
         # an existence filter (negated: 1) with blanks: (13, neg, blanks after `?(`, after `!`, before `)`, [inner steps])
         return '13 %d %d %d %d %s' % (1 if st[1] else 0, st[2], st[3], st[4], ' '.join('(%s)' % kstep_sx(x) for x in st[5]))
+    if st[0] == 15:
+        # a filter over a query with parenthesised sub-queries: (15, tree)
+        return '15 ' + qt_sx(st[1])
     if st[0] == 14:
         # a query in disjunctive form with blanks: (14, blanks after `?(`, [(blanks after `||`, [(blanks after `&&`, elem)])]);
         # elem = ('e', neg, blanks after `!`, [inner steps], trailing blanks) | ('c', [inner steps], blanks before op, op, blanks after, literal cps, trailing blanks)
